@@ -232,6 +232,42 @@ class DisciplineJacApprox:
         else:
             yield
 
+    @contextmanager
+    def __hold_other_inputs(self, input_names: Iterable[str]) -> None:
+        """A context manager to differentiate at the current values of all the inputs.
+
+        The function to be differentiated sets the values of ``input_names`` only;
+        the discipline would then use the default values of its other inputs
+        while the Jacobian is approximated at its current input data.
+        Within this context,
+        the current values of these other inputs are used as default ones,
+        except for the inputs that are also outputs
+        whose current values are the output ones.
+
+        Args:
+            input_names: The names of the inputs used to differentiate the outputs.
+        """
+        defaults = self.discipline.io.input_grammar.defaults
+        data = self.discipline.io.data
+        output_grammar = self.discipline.io.output_grammar
+        held_values = {
+            name: data[name]
+            for name in self.discipline.io.input_grammar
+            if name not in input_names and name not in output_grammar and name in data
+        }
+        original_values = {
+            name: defaults[name] for name in held_values if name in defaults
+        }
+        defaults.update(held_values)
+        try:
+            yield
+        finally:
+            for name in held_values:
+                if name in original_values:
+                    defaults[name] = original_values[name]
+                else:
+                    del defaults[name]
+
     def _prepare_xvect(
         self,
         input_names: Iterable[str],
@@ -291,7 +327,7 @@ class DisciplineJacApprox:
             msg = f"Inconsistent step size, expected {x_vect.size} got {len(step)}."
             raise ValueError(msg)
 
-        with self.__set_zero_cache_tol():
+        with self.__set_zero_cache_tol(), self.__hold_other_inputs(input_names):
             flat_jac = atleast_2d(
                 self.approximator.f_gradient(x_vect, x_indices=x_indices, step=step)
             )
